@@ -126,16 +126,27 @@ def by_qualname(qualname, lineno=None, live_fn=None):
     seg = ast.get_source_segment(src, node) or ''
     cls = None
     obj = mod
-    try:
+    if live_fn is not None:
+        # the live object is given (closure / decorator wrapper): only find the enclosing class
+        o = mod
         for name in rest[:-1]:
-            obj = getattr(obj, name)
-        cls = obj if inspect.isclass(obj) else None
-        lname = rest[-1]
-        if lname.startswith('__') and not lname.endswith('__') and cls is not None:
-            lname = '_%s%s' % (cls.__name__.lstrip('_'), lname)
-        live = inspect.getattr_static(obj, lname)
-    except AttributeError:
-        raise FunctionNotFound(qualname)
+            o = getattr(o, name, None)
+            if inspect.isclass(o):
+                cls = o
+            else:
+                break
+        live = live_fn
+    else:
+        try:
+            for name in rest[:-1]:
+                obj = getattr(obj, name)
+            cls = obj if inspect.isclass(obj) else None
+            lname = rest[-1]
+            if lname.startswith('__') and not lname.endswith('__') and cls is not None:
+                lname = '_%s%s' % (cls.__name__.lstrip('_'), lname)
+            live = inspect.getattr_static(obj, lname)
+        except AttributeError:
+            raise FunctionNotFound(qualname)
     live = _unwrap(live) if live_fn is None else live_fn
     code = getattr(live, '__code__', None)
     if code is not None and getattr(live, '__name__', None) == node.name:
@@ -168,8 +179,11 @@ def of_function(fn):
     w = getattr(fn, '__wrapped__', None)
     mod = getattr(fn, '__module__', None)
     qn = getattr(fn, '__qualname__', None)
-    if mod is None or qn is None or '<locals>' in qn:
+    if mod is None or qn is None:
         raise FunctionNotFound(repr(fn))
+    if '<locals>' in qn:
+        # nested def (decorator wrapper): located by its path through the enclosing defs
+        qn = '.'.join(p for p in qn.split('.') if p != '<locals>')
     code = getattr(fn, '__code__', None)
     return by_qualname(mod + '.' + qn, code.co_firstlineno if code is not None else None, fn)
 
